@@ -134,6 +134,33 @@ func (h *Hist) Liab(s snap.Snapshot) map[string]uint64 {
 	return l
 }
 
+// liabBreakdown lists the liability components of a contract (for violation details).
+func (h *Hist) liabBreakdown(s snap.Snapshot, c string) map[string]uint64 {
+	out := map[string]uint64{}
+	for _, v := range h.stakePools(s) {
+		if v.Contract != c {
+			continue
+		}
+		out["sp_reward"] += v.Reward
+		for _, d := range v.Pools {
+			out["dp_balance"] += d.Balance
+			out["dp_reward"] += d.Reward
+		}
+	}
+	if c == storagesc.ADDRESS {
+		for _, n := range h.NodesOfType(s, "*storagesc.StorageAllocation") {
+			out["write_pools"] += U(n.Val, "WritePool")
+		}
+		for _, n := range h.NodesOfType(s, "*storagesc.challengePool") {
+			out["challenge_pools"] += U(n.Val, "ZcnPool.TokenPool.Balance")
+		}
+		for _, n := range h.NodesOfType(s, "*storagesc.readPool") {
+			out["read_pools"] += U(n.Val, "Balance")
+		}
+	}
+	return out
+}
+
 // accrual allowance A for the functions that legitimately create new liabilities out of a pre-funded wallet
 func (h *Hist) accrual(o *TxnObs) (map[string]uint64, bool) {
 	a := map[string]uint64{}
@@ -207,7 +234,14 @@ func monC09(h *Hist, o *TxnObs) {
 			}
 		}
 		if dl > dw+int64(acc[c]) {
-			h.V("C09", "liability-grew-without-backing:"+o.Call.Name, fmt.Sprintf("%s (%s): contract %s liabilities %+d but only %d tokens moved into its wallet and accrual allowance %d", o.Call.Name, o.Outcome, h.name(c), dl, dw, acc[c]), o)
+			a, b := h.liabBreakdown(o.Pre, c), h.liabBreakdown(o.Post, c)
+			parts := ""
+			for _, k := range []string{"dp_balance", "dp_reward", "sp_reward", "write_pools", "challenge_pools", "read_pools"} {
+				if a[k] != b[k] {
+					parts += fmt.Sprintf(" %s%+d", k, int64(b[k])-int64(a[k]))
+				}
+			}
+			h.V("C09", "liability-grew-without-backing:"+o.Call.Name, fmt.Sprintf("%s (%s): contract %s liabilities %+d but only %d tokens moved into its wallet and accrual allowance %d [%s ]", o.Call.Name, o.Outcome, h.name(c), dl, dw, acc[c], parts), o)
 		}
 	}
 }
